@@ -541,7 +541,7 @@ def _to_nonsymmetric(a, legs, native, reverse):
     c_struct = _struct(s=c_s, n=(), diag=a.isdiag, t=c_t, D=c_D, size=Dp)
     c_slices = (_slc(((0, Dp),), c_D[0], Dp),)
     data = a.config.backend.merge_to_dense(a._data, Dtot, meta)
-    return a._replace(config=config_dense, struct=c_struct, slices=c_slices, data=data, mfs=None, hfs=None), c_D[0]
+    return a._replace(config=config_dense, struct=c_struct, slices=c_slices, data=data, mfs=None, hfs=None, trans=None), c_D[0]
 
 
 def zero_of_dtype(a):
